@@ -1,14 +1,14 @@
 SPECIFICATION Spec
 CONSTANTS
   Vers = {"sasl", "sasl2"}
-  Mechs = {"PLAIN", "DIGEST-MD5", "X-UNKNOWN"}
-  Creds = {"right", "otherUser"}
-  BindRes = {"ra"}
+  Mechs = {"PLAIN", "DIGEST-MD5", "ANONYMOUS", "X-UNKNOWN"}
+  Creds = {"right", "wrongPw", "otherUser", "malformed", "empty"}
+  BindRes = {"ra", "rv"}
   Kinds = {"message", "presence", "iq"}
   Froms = {"absent", "own", "ownBare", "victim", "other"}
   Tos = {"victimBare", "victimFull", "domain", "absent"}
-  Stanzas <- CoreStanzas
-  MaxPending = 1
+  Stanzas <- MidStanzas
+  MaxPending = 2
   MaxHist = 99
 VIEW GenView
 ACTION_CONSTRAINT EmitNoReauth
